@@ -15,9 +15,9 @@ func jsonUnmarshal(s string, v any) error { return json.Unmarshal([]byte(s), v) 
 // Vol is (input, output).
 type Vol struct{ In, Out *big.Int }
 
-func newVol() *Vol                { return &Vol{new(big.Int), new(big.Int)} }
-func (v *Vol) Balance() *big.Int  { return new(big.Int).Sub(v.In, v.Out) }
-func (v *Vol) String() string     { return fmt.Sprintf("(%s,%s)", v.In, v.Out) }
+func newVol() *Vol               { return &Vol{new(big.Int), new(big.Int)} }
+func (v *Vol) Balance() *big.Int { return new(big.Int).Sub(v.In, v.Out) }
+func (v *Vol) String() string    { return fmt.Sprintf("(%s,%s)", v.In, v.Out) }
 func (v *Vol) Eq(in, out *big.Int) bool {
 	return in != nil && out != nil && v.In.Cmp(in) == 0 && v.Out.Cmp(out) == 0
 }
